@@ -74,7 +74,8 @@ def main():
         out = os.path.join(ROOT, "seeded", args.id)
         os.makedirs(out, exist_ok=True)
         for f in ("patch.diff", "demo.py", "notes.md"):
-            if os.path.exists(os.path.join(args.src, f)):
+            if os.path.exists(os.path.join(args.src, f)) and \
+                    os.path.realpath(os.path.join(args.src, f)) != os.path.realpath(os.path.join(out, f)):
                 shutil.copy(os.path.join(args.src, f), os.path.join(out, f))
         old = {}
         if os.path.exists(os.path.join(out, "meta.json")):
@@ -85,6 +86,8 @@ def main():
                 meta["checks"] = merged
             if not args.needs and old.get("needs_to_manifest"):
                 meta["needs_to_manifest"] = old["needs_to_manifest"]
+            for k, v in (old.get("ran") or {}).items():
+                meta["ran"].setdefault(k, v)
         json.dump(meta, open(os.path.join(out, "meta.json"), "w"), indent=1)
     finally:
         run(["git", "-C", "/repo", "worktree", "remove", "--force", d])
